@@ -548,9 +548,10 @@ func applyPush(ctx Context, doc bsonkit.Doc, name, path string, v interface{}) e
 	// record changes: a plain push and a pure $each-append both leave existing
 	// elements in place, so we record per-element changes (matching the
 	// pre-modifier behavior). Anything that can shift elements ($position not
-	// at end, $sort, $slice) records the whole array.
+	// at end, $sort, $slice) records the whole array, and so does a push that
+	// creates the field (an element path would not describe a new array).
 	changes := ctx.Value.(*Changes)
-	if !hasSort && !hasSlice && insertAt == len(arr) {
+	if !hasSort && !hasSlice && insertAt == len(arr) && field != bsonkit.Missing {
 		startIdx := insertAt
 		for i, val := range values {
 			err := changes.Record(path+"."+strconv.Itoa(startIdx+i), val)
